@@ -1,7 +1,11 @@
 """C18 -- growth is geometric (grid_c18.cpp): every n up to NMAX from every start state, checked at every n."""
-import re
-
 from checks import e1, grids
+
+RULE = ("one evaluation = one append (checked against the running bounds) or one reserve call; distinct non-trivial = scenarios (start state x "
+        "configuration) in which at least one reallocation happened / reserve calls that had to grow")
+ASSUME = ["allocator calls are counted by the ledger allocators; relocated elements = live elements at each capacity change (and move constructions for the non-relocatable element type)",
+          "bounds exactly as stated in the property: reallocations <= 2*ceil(log2 n)+4 and relocations <= 6n+16 at every n; growth step >= ceil(1.5*cap) unless clamped by size_type",
+          "identity-tracked element types are bounded by the fixed-size lifetime ledger and run to n = 4096 in both tiers; untracked configurations run to n = 100000 in the thorough tier"]
 
 
 def run(ctx):
@@ -18,10 +22,20 @@ def run(ctx):
     ]
     if not q:
         insts += [I("small", 5, "TC1", st="uint64_t", alloc="ledgerbasic"), I("vector", 0, "PTN", alloc="ledgerstd"), I("small", 3, "PTT", st="int32_t", alloc="ledgerrealloc"),
-                  I("vector", 0, "NTR", st="int16_t", alloc="ledgerstd"), I("small", 1, "TC12", alloc="ledgerbasic")]
-    configs = [(e1.name(i), e1.flags(i)) for i in insts]
-    cov = grids.run_grids(ctx, "grid_c18.cpp", "G18", configs, ["--nmax", "4096" if q else "100000"],
-                          lambda f: re.sub(r"\d+", "#", f.split("|")[0] + "|" + f.split("|")[-1]),
-                          "one evaluation = one append (checked against the running bounds) or one reserve call; distinct non-trivial = scenarios (start state x configuration) in which at least one reallocation happened / reserve calls that had to grow")
-    return ctx.finish("exploration", cov, ["allocator calls are counted by the ledger allocators; relocated elements = live elements at each capacity change (and move constructions for the non-relocatable element type)",
-                                             "bounds exactly as stated in the property: reallocations <= 2*ceil(log2 n)+4 and relocations <= 6n+16 at every n; growth step >= ceil(1.5*cap) unless clamped by size_type"])
+                  I("vector", 0, "NTR", st="int16_t", alloc="ledgerstd"), I("small", 1, "TC12", alloc="ledgerbasic"), I("small", 3, "TC4", alloc="ledgerstd")]
+
+    def nmax(i):
+        return "4096" if (q or i["elem"] in e1.TRACKED) else "100000"
+
+    cov = None
+    for nm in sorted(set(nmax(i) for i in insts)):
+        configs = [(e1.name(i), e1.flags(i)) for i in insts if nmax(i) == nm]
+        c = grids.run_grids(ctx, "grid_c18.cpp", "G18", configs, ["--nmax", nm], lambda f: e1.norm(f.split("|")[0] + "|" + f.split("|")[-1]), RULE)
+        if cov is None:
+            cov = c
+        else:
+            for k in ("evaluations", "distinct_nontrivial"):
+                cov[k] += c[k]
+            cov["samples"] += c["samples"]
+            cov["configurations"] += c["configurations"]
+    return ctx.finish("exploration", cov, ASSUME)
